@@ -76,11 +76,34 @@ func (m *Mast) loadPersisted(ctx context.Context, l string) (*mastNode, error) {
 	if m.debug {
 		fmt.Printf("loaded node %s->%v\n", l, node)
 	}
-	validateNode(ctx, &node, m)
+	err = checkDecodedNode(&node, m)
+	if err != nil {
+		return nil, fmt.Errorf("node %s: %w", l, err)
+	}
 	if m.nodeCache != nil {
 		m.nodeCache.Add(cacheKey, &node)
 	}
 	return &node, nil
+}
+
+// checkDecodedNode verifies what every other function takes for granted about
+// a node, for bytes that come from the store: as many values as keys, one more
+// link than keys, and keys in strictly ascending order.
+func checkDecodedNode(node *mastNode, m *Mast) error {
+	if len(node.Key) != len(node.Value) || len(node.Link) != len(node.Key)+1 {
+		return fmt.Errorf("improperly-formatted node: %d keys, %d values, %d links",
+			len(node.Key), len(node.Value), len(node.Link))
+	}
+	for i := 0; i+1 < len(node.Key); i++ {
+		cmp, err := m.keyOrder(node.Key[i], node.Key[i+1])
+		if err != nil {
+			return fmt.Errorf("keyCompare: %w", err)
+		}
+		if cmp >= 0 {
+			return fmt.Errorf("keys out of order; ensure using same key order function as source")
+		}
+	}
+	return nil
 }
 
 func unmarshalNode(m *Mast, nodeBytes []byte, l string, node *mastNode) error {
@@ -98,6 +121,9 @@ func unmarshalStringNode(m *Mast, nodeBytes []byte, l string, node *mastNode) er
 	}
 	if len(stringNode.Key) != len(stringNode.Value) {
 		return fmt.Errorf("cannot unmarshal %s: mismatched keys and values", l)
+	}
+	if stringNode.Link != nil && len(stringNode.Link) != len(stringNode.Key)+1 {
+		return fmt.Errorf("cannot unmarshal %s: mismatched keys and links", l)
 	}
 	*node = mastNode{
 		Node{
